@@ -40,10 +40,12 @@ pub enum Rel {
     Sibling,
     OtherTree,
     ChainMate,
+    /// the topmost ancestor (root of the tree the other argument is in)
+    Root,
 }
 
 impl Rel {
-    pub const ALL: [Rel; 12] = [
+    pub const ALL: [Rel; 13] = [
         Rel::Same,
         Rel::Parent,
         Rel::Ancestor,
@@ -56,6 +58,7 @@ impl Rel {
         Rel::Sibling,
         Rel::OtherTree,
         Rel::ChainMate,
+        Rel::Root,
     ];
 }
 
@@ -91,9 +94,17 @@ pub enum Op {
     IterMutAdd { d: u32 },
     /// remove + re-create one slot `cycles` times (free list drained first so that one slot cycles)
     Churn { x: Sel, cycles: u32 },
+    /// churn slot `x` until it has been recycled exactly `limit - left` times (brings a slot to the
+    /// brink of a generation-counter width: limit 127 / 255 / 32767 / 65535)
+    ChurnTo { x: Sel, limit: u32, left: u8 },
     /// Deep checks on clones: all/sampled argument pairs, traversals, lookups (what exactly is
     /// decided by the run configuration; `seed` feeds the sampled choices).
     Probe { seed: u64 },
+    /// add `n` nodes quickly below / beside `under` (light per-node checks, one full check at the
+    /// end): shape 0 wide (n children), 1 deep (a chain of n), 2 top-level chain, 3 bushy, 4 comb (a spine whose
+    /// every node has a following leaf sibling), 5 deep chain ending in a small branching tail, 6 wide
+    /// with one later-allocated node inserted in the middle
+    Grow { under: Sel, n: u32, shape: u8 },
     Clear,
     Reserve { k: u16 },
     /// Serde round trip (only meaningful in the `deser` build; no-op elsewhere).
@@ -121,7 +132,9 @@ impl Op {
             Op::Set { .. } => "set",
             Op::IterMutAdd { .. } => "iter_mut_add",
             Op::Churn { .. } => "churn",
+            Op::ChurnTo { .. } => "churn_to",
             Op::Probe { .. } => "probe",
+            Op::Grow { .. } => "grow",
             Op::Clear => "clear",
             Op::Reserve { .. } => "reserve",
             Op::Roundtrip => "roundtrip",
